@@ -765,7 +765,10 @@ def snapshot_list(eng, st, src, ty=None) -> SRef:
             st.assume(z3.ForAll([k], z3.Implies(z3.Select(dom, k), z3.And(pos(k) >= 0, pos(k) < n, keyat(pos(k)) == k))))
         st.heap.c_seq = z3.Store(st.heap.c_seq, r, seq)
         st.heap.c_len = z3.Store(st.heap.c_len, r, n)
-        return SRef(r, TList(ety))
+        out = SRef(r, TList(ety))
+        if kind == "keys":
+            out.snap_of_keys = dom  # the key set this list enumerates (used by sort_list to state max/min facts directly)
+        return out
     raise Unsupported(f"list() of {type(src).__name__}")
 
 
@@ -937,16 +940,52 @@ def sort_list(eng, st, lst, fresh=True):
     st.assume(z3.ForAll([i], z3.Implies(z3.And(i >= 0, i < n), z3.And(perm(i) >= 0, perm(i) < n, inv(perm(i)) == i, z3.Select(new, i) == z3.Select(old, perm(i))))))
     st.assume(z3.ForAll([i], z3.Implies(z3.And(i >= 0, i < n), z3.And(inv(i) >= 0, inv(i) < n, perm(inv(i)) == i))))
     ety = lst.ty.v
-    le = val_le(eng, ety)
+    le = val_le(eng, ety, st)
     st.assume(z3.ForAll([i, j], z3.Implies(z3.And(i >= 0, i <= j, j < n), le(z3.Select(new, i), z3.Select(new, j)))))
+    # consequences stated explicitly (they follow from the three axioms above; they spare the solver the instantiation chain):
+    # every element of the old list is bounded by the last / first element of the sorted one
+    st.assume(z3.ForAll([i], z3.Implies(z3.And(i >= 0, i < n), z3.And(le(z3.Select(old, i), z3.Select(new, n - 1)), le(z3.Select(new, 0), z3.Select(old, i)))),
+                        patterns=[z3.Select(old, i)]))
+    dom = getattr(lst, "snap_of_keys", None)
+    if dom is not None:
+        # the sorted enumeration of a key set: its last (first) element is a member that bounds every member from above (below)
+        k = sym.fresh_val("k")
+        st.assume(z3.Implies(n > 0, z3.And(z3.Select(dom, z3.Select(new, n - 1)), z3.Select(dom, z3.Select(new, 0)))))
+        st.assume(z3.ForAll([k], z3.Implies(z3.And(n > 0, z3.Select(dom, k)), z3.And(le(k, z3.Select(new, n - 1)), le(z3.Select(new, 0), k))),
+                            patterns=[z3.Select(dom, k)]))
     st.set_seq(lst.t, new)
     return lst
 
 
-def val_le(eng, ety):
+STR_LE = z3.Function("str_le", sym.StrS, sym.StrS, sym.BoolS)
+
+
+def str_order_axioms(st):
+    """Python's str ordering enters the proofs only as AN abstract total order shared by code and contracts (z3/cvc5 do not
+    decide str.<= under quantifiers); comparisons between two literals are evaluated concretely"""
+    if st.ghost.get("__str_order__"):
+        return
+    st.ghost["__str_order__"] = True
+    a, b, c = z3.String("so!a"), z3.String("so!b"), z3.String("so!c")
+    st.assume(z3.ForAll([a, b], z3.Or(STR_LE(a, b), STR_LE(b, a)), patterns=[z3.MultiPattern(STR_LE(a, b))]))
+    st.assume(z3.ForAll([a, b], z3.Implies(z3.And(STR_LE(a, b), STR_LE(b, a)), a == b), patterns=[z3.MultiPattern(STR_LE(a, b), STR_LE(b, a))]))
+    st.assume(z3.ForAll([a, b, c], z3.Implies(z3.And(STR_LE(a, b), STR_LE(b, c)), STR_LE(a, c)), patterns=[z3.MultiPattern(STR_LE(a, b), STR_LE(b, c))]))
+
+
+def str_le(st, a, b):
+    sa, sb = z3.simplify(a), z3.simplify(b)
+    if z3.is_string_value(sa) and z3.is_string_value(sb):
+        return z3.BoolVal(sa.as_string() <= sb.as_string())
+    str_order_axioms(st)
+    return STR_LE(a, b)
+
+
+def val_le(eng, ety, st=None):
     """ordering on Val terms of a given static type"""
     if ety.kind == "str":
-        return lambda a, b: Val.sval(a) <= Val.sval(b)
+        if st is not None:
+            str_order_axioms(st)
+        return lambda a, b: STR_LE(Val.sval(a), Val.sval(b))
     if ety.kind == "int":
         return lambda a, b: Val.ival(a) <= Val.ival(b)
     if ety.kind == "tuple" and ety.items and ety.items[0].kind in ("str", "int"):
@@ -1060,7 +1099,9 @@ def b_id(eng, st, args, kw):
 @_b("time_ns")
 def b_time_ns(eng, st, args, kw):
     t = sym.fresh_int("clock")
-    return [(st, SInt(t))]
+    v = SInt(t)
+    st.ghost.setdefault("obs:time_ns", v)  # the first clock reading of the call can be named by `observes`
+    return [(st, v)]
 
 
 BUILTINS["perf_counter_ns"] = b_time_ns
@@ -1424,8 +1465,8 @@ def external_call(eng, st, fv, args, kwargs):
     if eng.contracts is not None and key in eng.contracts.externals:
         return eng.contracts.externals[key](eng, st, [obj] + list(args), kwargs)
     eng.externals_used.add(key)
-    st.log_event(key, [obj] + [a for a in args if not isinstance(a, (SFunc, SBuiltin))])
-    return [(st, SOpaque(label=key + "()"))]
+    st.log_event(fv.name, [a for a in args if not isinstance(a, (SFunc, SBuiltin))])
+    return [(st, eng.external_result(st, fv.name, key))]
 
 
 def import_stmt(eng, stmt, st, fi):
@@ -1634,6 +1675,9 @@ def spec_old(eng, node, st, fi):
         # evaluate in the pre-state heap with the *entry* values of the parameters, but keep the current path condition
         tmp = o.copy()
         tmp.pc = st.pc
+        for k, v in st.ghost.items():
+            if k.startswith("obs:"):
+                tmp.ghost[k] = v
         tmp.frames = [f.copy() for f in o.frames]
         # spec-bound variables (quantifier variables, let-bindings) live in the current frame
         for k, v in st.frames[fi].vars.items():
@@ -1795,7 +1839,39 @@ def spec_isascii(eng, node, st, fi):
     return [(s, SBool(bytesalg.isascii(v.t)))]
 
 
+def spec_ev_name(eng, node, st, fi):
+    """ev_name(e): the name of a logged external call"""
+    (s, e), = eng.ev(node.args[0], st, fi)
+    return [(s, SStr(Val.sval(VL.hd(Val.targs(e.val())))))]
+
+
+def spec_ev_arg(eng, node, st, fi):
+    """ev_arg(e, i): the i-th argument (0-based, literal i) of a logged external call, as an untyped value"""
+    (s, e), = eng.ev(node.args[0], st, fi)
+    i = node.args[1].value
+    cur = VL.tl(Val.targs(e.val()))
+    for _ in range(i):
+        cur = VL.tl(cur)
+    return [(s, SAny(VL.hd(cur), ANY))]
+
+
+def spec_ev_argc(eng, node, st, fi):
+    """ev_argc(e) == n  iff the logged call has exactly n arguments (n literal, given as second parameter)"""
+    (s, e), = eng.ev(node.args[0], st, fi)
+    n = node.args[1].value
+    cur = VL.tl(Val.targs(e.val()))
+    conj = [Val.is_tup(e.val()), VL.is_cons(Val.targs(e.val()))]
+    for _ in range(n):
+        conj.append(VL.is_cons(cur))
+        cur = VL.tl(cur)
+    conj.append(VL.is_nil(cur))
+    return [(s, SBool(z3.And(*conj)))]
+
+
 SPEC_FUNCS = {
+    "ev_name": spec_ev_name,
+    "ev_arg": spec_ev_arg,
+    "ev_argc": spec_ev_argc,
     "isascii": spec_isascii,
     "owner_of": spec_owner_of,
     "key_of": spec_key_of,
